@@ -279,12 +279,59 @@ struct FaultyWriter {
   budget: usize,
   written: Vec<u8>,
   fired: bool,
+  /// kind "script": what the next calls answer - n > 0: takes at most n
+  /// bytes, 0: Ok(0), -1: a hard error, -2: Interrupted; afterwards everything
+  /// offered is taken
+  script: Vec<i64>,
+  /// hard errors / Ok(0) answers given so far, and calls received after the
+  /// first of them
+  hard: usize,
+  after: usize,
+}
+
+impl FaultyWriter {
+  fn new(kind: &str, budget: usize) -> Self {
+    FaultyWriter {
+      kind: kind.to_string(),
+      budget,
+      written: Vec::new(),
+      fired: false,
+      script: Vec::new(),
+      hard: 0,
+      after: 0,
+    }
+  }
 }
 
 impl Write for FaultyWriter {
   fn write(&mut self, buf: &[u8]) -> std::io::Result<usize> {
     if buf.is_empty() {
       return Ok(0);
+    }
+    if self.kind == "script" {
+      if self.hard > 0 {
+        self.after += 1;
+      }
+      let next = if self.script.is_empty() { i64::MAX } else { self.script.remove(0) };
+      return match next {
+        0 => {
+          self.hard += 1;
+          Ok(0)
+        }
+        -1 => {
+          self.hard += 1;
+          Err(std::io::Error::new(std::io::ErrorKind::Other, "scripted"))
+        }
+        -2 => Err(std::io::Error::new(
+          std::io::ErrorKind::Interrupted,
+          "interrupted",
+        )),
+        n => {
+          let n = (n as usize).min(buf.len());
+          self.written.extend_from_slice(&buf[..n]);
+          Ok(n)
+        }
+      };
     }
     if self.kind == "chunky" {
       self.written.push(buf[0]);
@@ -322,6 +369,31 @@ impl Write for FaultyWriter {
   }
   fn flush(&mut self) -> std::io::Result<()> {
     Ok(())
+  }
+}
+
+/// A reader that hands out at most `step` bytes per call and reports
+/// `Interrupted` once before its first byte when `intr` is set - what a
+/// pipe or a socket does, and what `Read` allows.
+struct SlowReader<'a> {
+  data: &'a [u8],
+  step: usize,
+  intr: bool,
+}
+
+impl std::io::Read for SlowReader<'_> {
+  fn read(&mut self, buf: &mut [u8]) -> std::io::Result<usize> {
+    if self.intr {
+      self.intr = false;
+      return Err(std::io::Error::new(
+        std::io::ErrorKind::Interrupted,
+        "interrupted",
+      ));
+    }
+    let n = self.step.min(buf.len()).min(self.data.len());
+    buf[..n].copy_from_slice(&self.data[..n]);
+    self.data = &self.data[n..];
+    Ok(n)
   }
 }
 
@@ -486,6 +558,8 @@ impl Machine {
             Err(_) => SourceMap::from_slice(&bytes),
           },
           "reader" => SourceMap::from_reader(&bytes[..]),
+          "reader1" => SourceMap::from_reader(SlowReader { data: &bytes[..], step: 1, intr: false }),
+          "reader7" => SourceMap::from_reader(SlowReader { data: &bytes[..], step: 7, intr: true }),
           _ => SourceMap::from_slice(&bytes),
         };
         match res {
@@ -502,15 +576,24 @@ impl Machine {
         let wres = m.clone().to_writer(&mut w);
         // the same value through writers that take less than they are offered
         let faulty = |kind: &str, budget: usize| {
-          let mut fw = FaultyWriter {
-            kind: kind.to_string(),
-            budget,
-            written: Vec::new(),
-            fired: false,
-          };
+          let mut fw = FaultyWriter::new(kind, budget);
           let r = m.clone().to_writer(&mut fw);
           json!({"ok": r.is_ok(), "w": bytes_json(&fw.written)})
         };
+        // writers that answer their first calls as TLC scripted them
+        let scripted: Vec<Value> = step["scripts"]
+          .as_array()
+          .map(|a| {
+            a.iter()
+              .map(|sc| {
+                let mut fw = FaultyWriter::new("script", 0);
+                fw.script = sc.as_array().map(|x| x.iter().map(|v| v.as_i64().unwrap_or(1)).collect()).unwrap_or_default();
+                let r = m.clone().to_writer(&mut fw);
+                json!({"ok": r.is_ok(), "w": bytes_json(&fw.written), "hard": fw.hard, "after": fw.after})
+              })
+              .collect()
+          })
+          .unwrap_or_default();
         let half = text.as_ref().map(|t| t.len() / 2).unwrap_or(0);
         match text {
           Ok(text) => {
@@ -529,10 +612,13 @@ impl Machine {
               "w_intr": faulty("intr", half),
               "w_zero": faulty("zero", half),
               "w_err": faulty("err", half),
+              "w_scripts": scripted,
               "doc": doc.map(|d| vec![doc_json(&d)]).unwrap_or_default(),
               "back_json": back(SourceMap::from_json(&text)),
               "back_slice": back(SourceMap::from_slice(text.as_bytes())),
               "back_reader": back(SourceMap::from_reader(text.as_bytes())),
+              "back_reader1": back(SourceMap::from_reader(SlowReader { data: text.as_bytes(), step: 1, intr: false })),
+              "back_reader7": back(SourceMap::from_reader(SlowReader { data: text.as_bytes(), step: 7, intr: true })),
             })
           }
           Err(_) => json!({"res": "err"}),
@@ -552,6 +638,8 @@ impl Machine {
           "json": back(SourceMap::from_json(&text)),
           "slice": back(SourceMap::from_slice(text.as_bytes())),
           "reader": back(SourceMap::from_reader(text.as_bytes())),
+          "reader1": back(SourceMap::from_reader(SlowReader { data: text.as_bytes(), step: 1, intr: false })),
+          "reader7": back(SourceMap::from_reader(SlowReader { data: text.as_bytes(), step: 7, intr: true })),
         })
       }
       "codec" => {
@@ -691,16 +779,17 @@ impl Machine {
         })
       }
       "writer" => {
-        let mut w = FaultyWriter {
-          kind: step["kind"].as_str().unwrap_or("ok").to_string(),
-          budget: step["k"].as_u64().unwrap_or(0) as usize,
-          written: Vec::new(),
-          fired: false,
-        };
+        let mut w = FaultyWriter::new(
+          step["kind"].as_str().unwrap_or("ok"),
+          step["k"].as_u64().unwrap_or(0) as usize,
+        );
+        w.script = step["script"].as_array().map(|x| x.iter().map(|v| v.as_i64().unwrap_or(1)).collect()).unwrap_or_default();
         let res = self.reg(step, "r").as_source().to_writer(&mut w);
         json!({
           "res": if res.is_ok() { "ok" } else { "err" },
           "w": bytes_json(&w.written),
+          "hard": w.hard,
+          "after": w.after,
         })
       }
       "map" => {
